@@ -458,6 +458,19 @@ pub trait Scheme: 'static + Sized {
     fn vk_variants(_vk: &Vk<Self>, _seed: u64) -> Vec<(String, Vk<Self>)> {
         vec![]
     }
+    /// C10: the scheme's published verification relation, evaluated by the harness's own code with
+    /// the same challenge derivation (None = no reference implementation)
+    #[cfg(feature = "full")]
+    fn reference_check(
+        _vk: &Vk<Self>,
+        _comms: &[&ark_poly_commit::LabeledCommitment<Comm<Self>>],
+        _z: &Self::Pt,
+        _values: &[Self::F],
+        _proof: &Proof<Self>,
+        _sp: &mut crate::seams::TraceSponge<Self::F>,
+    ) -> Option<bool> {
+        None
+    }
 }
 
 pub type PcOf<S> = <S as Scheme>::PC;
@@ -521,6 +534,18 @@ where
         format!("marlin-{}", E::CURVE)
     }
     #[cfg(feature = "full")]
+    fn comm_variants(c: &Comm<Self>, seed: u64) -> Vec<(String, Comm<Self>)> {
+        crate::surgery::marlin_comm_variants::<E>(c, seed)
+    }
+    #[cfg(feature = "full")]
+    fn vk_variants(vk: &Vk<Self>, seed: u64) -> Vec<(String, Vk<Self>)> {
+        crate::surgery::marlin_vk_variants::<E>(vk, seed)
+    }
+    #[cfg(feature = "full")]
+    fn reference_check(vk: &Vk<Self>, comms: &[&ark_poly_commit::LabeledCommitment<Comm<Self>>], z: &Self::Pt, values: &[Self::F], proof: &Proof<Self>, sp: &mut crate::seams::TraceSponge<Self::F>) -> Option<bool> {
+        Some(crate::refcheck::marlin_ref::<E>(vk, comms, z, values, proof, sp))
+    }
+    #[cfg(feature = "full")]
     fn hiding_audit(ck: &Ck<Self>, lp: &ark_poly_commit::LabeledPolynomial<Self::F, Self::P>, comm: &Comm<Self>, plain: Option<&Comm<Self>>, state: &State<Self>) -> Option<Vec<String>> {
         plain.map(|pl| crate::hiding::marlin_audit::<E>(ck, lp, comm, pl, state))
     }
@@ -572,6 +597,18 @@ where
         format!("sonic-{}", E::CURVE)
     }
     #[cfg(feature = "full")]
+    fn comm_variants(c: &Comm<Self>, seed: u64) -> Vec<(String, Comm<Self>)> {
+        crate::surgery::sonic_comm_variants::<E>(c, seed)
+    }
+    #[cfg(feature = "full")]
+    fn vk_variants(vk: &Vk<Self>, seed: u64) -> Vec<(String, Vk<Self>)> {
+        crate::surgery::sonic_vk_variants::<E>(vk, seed)
+    }
+    #[cfg(feature = "full")]
+    fn reference_check(vk: &Vk<Self>, comms: &[&ark_poly_commit::LabeledCommitment<Comm<Self>>], z: &Self::Pt, values: &[Self::F], proof: &Proof<Self>, sp: &mut crate::seams::TraceSponge<Self::F>) -> Option<bool> {
+        Some(crate::refcheck::sonic_ref::<E>(vk, comms, z, values, proof, sp))
+    }
+    #[cfg(feature = "full")]
     fn hiding_audit(ck: &Ck<Self>, lp: &ark_poly_commit::LabeledPolynomial<Self::F, Self::P>, comm: &Comm<Self>, plain: Option<&Comm<Self>>, state: &State<Self>) -> Option<Vec<String>> {
         plain.map(|pl| crate::hiding::sonic_audit::<E>(ck, lp, comm, pl, state))
     }
@@ -610,6 +647,18 @@ where
         format!("ipa-{}", G::CURVE)
     }
     #[cfg(feature = "full")]
+    fn comm_variants(c: &Comm<Self>, seed: u64) -> Vec<(String, Comm<Self>)> {
+        crate::surgery::ipa_comm_variants::<G>(c, seed)
+    }
+    #[cfg(feature = "full")]
+    fn vk_variants(vk: &Vk<Self>, seed: u64) -> Vec<(String, Vk<Self>)> {
+        crate::surgery::ipa_vk_variants::<G>(vk, seed)
+    }
+    #[cfg(feature = "full")]
+    fn reference_check(vk: &Vk<Self>, comms: &[&ark_poly_commit::LabeledCommitment<Comm<Self>>], z: &Self::Pt, values: &[Self::F], proof: &Proof<Self>, sp: &mut crate::seams::TraceSponge<Self::F>) -> Option<bool> {
+        Some(crate::refcheck::ipa_ref::<G>(vk, comms, z, values, proof, sp))
+    }
+    #[cfg(feature = "full")]
     fn hiding_audit(ck: &Ck<Self>, lp: &ark_poly_commit::LabeledPolynomial<Self::F, Self::P>, comm: &Comm<Self>, plain: Option<&Comm<Self>>, state: &State<Self>) -> Option<Vec<String>> {
         plain.map(|pl| crate::hiding::ipa_audit::<G>(ck, lp, comm, pl, state))
     }
@@ -643,6 +692,18 @@ where
     const FAMILY: Family = Family::Pst13;
     fn name() -> String {
         format!("pst13-{}", E::CURVE)
+    }
+    #[cfg(feature = "full")]
+    fn comm_variants(c: &Comm<Self>, seed: u64) -> Vec<(String, Comm<Self>)> {
+        crate::surgery::marlin_comm_variants::<E>(c, seed)
+    }
+    #[cfg(feature = "full")]
+    fn vk_variants(vk: &Vk<Self>, seed: u64) -> Vec<(String, Vk<Self>)> {
+        crate::surgery::pst13_vk_variants::<E>(vk, seed)
+    }
+    #[cfg(feature = "full")]
+    fn reference_check(vk: &Vk<Self>, comms: &[&ark_poly_commit::LabeledCommitment<Comm<Self>>], z: &Self::Pt, values: &[Self::F], proof: &Proof<Self>, sp: &mut crate::seams::TraceSponge<Self::F>) -> Option<bool> {
+        Some(crate::refcheck::pst13_ref::<E>(vk, comms, z, values, proof, sp))
     }
     #[cfg(feature = "full")]
     fn hiding_audit(ck: &Ck<Self>, lp: &ark_poly_commit::LabeledPolynomial<Self::F, Self::P>, comm: &Comm<Self>, plain: Option<&Comm<Self>>, state: &State<Self>) -> Option<Vec<String>> {
@@ -683,6 +744,18 @@ where
         format!("hyrax-{}", G::CURVE)
     }
     #[cfg(feature = "full")]
+    fn comm_variants(c: &Comm<Self>, seed: u64) -> Vec<(String, Comm<Self>)> {
+        crate::surgery::hyrax_comm_variants::<G>(c, seed)
+    }
+    #[cfg(feature = "full")]
+    fn vk_variants(vk: &Vk<Self>, seed: u64) -> Vec<(String, Vk<Self>)> {
+        crate::surgery::hyrax_vk_variants::<G>(vk, seed)
+    }
+    #[cfg(feature = "full")]
+    fn reference_check(vk: &Vk<Self>, comms: &[&ark_poly_commit::LabeledCommitment<Comm<Self>>], z: &Self::Pt, values: &[Self::F], proof: &Proof<Self>, sp: &mut crate::seams::TraceSponge<Self::F>) -> Option<bool> {
+        Some(crate::refcheck::hyrax_ref::<G>(vk, comms, z, values, proof, sp))
+    }
+    #[cfg(feature = "full")]
     fn hiding_audit(ck: &Ck<Self>, _lp: &ark_poly_commit::LabeledPolynomial<Self::F, Self::P>, comm: &Comm<Self>, _plain: Option<&Comm<Self>>, state: &State<Self>) -> Option<Vec<String>> {
         let m: crate::surgery::HyraxStateMirror<Self::F> = crate::surgery::to_mirror(state)?;
         Some(crate::hiding::hyrax_audit::<G>(&ck.com_key, ck.h, &comm.row_coms, &m.randomness, &m.entries))
@@ -707,6 +780,18 @@ impl<F: PrimeField + Absorb + CurveName> Scheme for ULigeroS<F> {
     const FAMILY: Family = Family::ULigero;
     fn name() -> String {
         format!("uligero-{}", F::CURVE)
+    }
+    #[cfg(feature = "full")]
+    fn comm_variants(c: &Comm<Self>, seed: u64) -> Vec<(String, Comm<Self>)> {
+        crate::surgery::lincode_comm_variants::<MT, Comm<Self>>(c, seed)
+    }
+    #[cfg(feature = "full")]
+    fn vk_variants(vk: &Vk<Self>, seed: u64) -> Vec<(String, Vk<Self>)> {
+        { let _ = (vk, seed); vec![] }
+    }
+    #[cfg(feature = "full")]
+    fn reference_check(vk: &Vk<Self>, comms: &[&ark_poly_commit::LabeledCommitment<Comm<Self>>], z: &Self::Pt, values: &[Self::F], proof: &Proof<Self>, sp: &mut crate::seams::TraceSponge<Self::F>) -> Option<bool> {
+        Some(crate::refcheck::lincode_ref::<F, UPoly<F>, UnivariateLigero<F, MT, UPoly<F>, CH<F>>, Comm<Self>, Proof<Self>>(vk, comms, z, values, proof, sp))
     }
     #[cfg(feature = "full")]
     fn proof_variants(p: &Proof<Self>, seed: u64) -> Vec<(String, Proof<Self>)> {
@@ -736,6 +821,18 @@ impl<F: PrimeField + Absorb + CurveName> Scheme for MLigeroS<F> {
         format!("mligero-{}", F::CURVE)
     }
     #[cfg(feature = "full")]
+    fn comm_variants(c: &Comm<Self>, seed: u64) -> Vec<(String, Comm<Self>)> {
+        crate::surgery::lincode_comm_variants::<MT, Comm<Self>>(c, seed)
+    }
+    #[cfg(feature = "full")]
+    fn vk_variants(vk: &Vk<Self>, seed: u64) -> Vec<(String, Vk<Self>)> {
+        { let _ = (vk, seed); vec![] }
+    }
+    #[cfg(feature = "full")]
+    fn reference_check(vk: &Vk<Self>, comms: &[&ark_poly_commit::LabeledCommitment<Comm<Self>>], z: &Self::Pt, values: &[Self::F], proof: &Proof<Self>, sp: &mut crate::seams::TraceSponge<Self::F>) -> Option<bool> {
+        Some(crate::refcheck::lincode_ref::<F, MlPoly<F>, MultilinearLigero<F, MT, MlPoly<F>, CH<F>>, Comm<Self>, Proof<Self>>(vk, comms, z, values, proof, sp))
+    }
+    #[cfg(feature = "full")]
     fn proof_variants(p: &Proof<Self>, seed: u64) -> Vec<(String, Proof<Self>)> {
         crate::surgery::lincode_proof_variants::<F, MT, Proof<Self>>(p, seed)
     }
@@ -761,6 +858,18 @@ impl<F: PrimeField + Absorb + CurveName> Scheme for BrakedownS<F> {
     const FAMILY: Family = Family::Brakedown;
     fn name() -> String {
         format!("brakedown-{}", F::CURVE)
+    }
+    #[cfg(feature = "full")]
+    fn comm_variants(c: &Comm<Self>, seed: u64) -> Vec<(String, Comm<Self>)> {
+        crate::surgery::lincode_comm_variants::<MT, Comm<Self>>(c, seed)
+    }
+    #[cfg(feature = "full")]
+    fn vk_variants(vk: &Vk<Self>, seed: u64) -> Vec<(String, Vk<Self>)> {
+        { let _ = (vk, seed); vec![] }
+    }
+    #[cfg(feature = "full")]
+    fn reference_check(vk: &Vk<Self>, comms: &[&ark_poly_commit::LabeledCommitment<Comm<Self>>], z: &Self::Pt, values: &[Self::F], proof: &Proof<Self>, sp: &mut crate::seams::TraceSponge<Self::F>) -> Option<bool> {
+        Some(crate::refcheck::lincode_ref::<F, MlPoly<F>, MultilinearBrakedown<F, MT, MlPoly<F>, CH<F>>, Comm<Self>, Proof<Self>>(vk, comms, z, values, proof, sp))
     }
     #[cfg(feature = "full")]
     fn proof_variants(p: &Proof<Self>, seed: u64) -> Vec<(String, Proof<Self>)> {
